@@ -1,7 +1,6 @@
 (** C05 — after every public operation the graph is structurally consistent.
 
-    FULL STATEMENT (DESIGN.md):
-      Theorem C05_wf_every_boundary : forall h s, run h = Ok s -> wf s.
+    FULL STATEMENT (DESIGN.md): for every history h and state s, run h = Ok s -> wf s.
     That statement is FALSE of the faithful model: an operation rejected for the height limit
     (or a cycle) leaves the state ill-formed ([C05_rejection_refuted]), and histories that hand
     bind-created nodes to top-level operations, or declare a cycle on an unobserved node, break
@@ -116,7 +115,9 @@ Print Assumptions C05_unobserved_cycle_refuted.
 (** non-vacuity *)
 Example C05_clean_history_with_binds : exists s, run_clean (init 16) h_binds = Some s /\ wfb s = true.
 Proof. exact clean_history_with_binds. Qed.
+Print Assumptions C05_clean_history_with_binds.
 
 Example C05_clean_bindfree_history : exists s,
   forallb op_nobind h_static = true /\ run_clean (init 16) h_static = Some s.
 Proof. exact clean_bindfree_history. Qed.
+Print Assumptions C05_clean_bindfree_history.
